@@ -179,12 +179,15 @@ CHECKS = {
         note="The theorems cover reordering, moving and position relabelling (checker side); the @ignore reader under relabelling and renaming invariance are exercised, not proved (DESIGN 5, C12).",
         technique="Coq proof (permutation invariance, order-independence of the dedup) + metamorphic correspondence through the real binary"),
     "C13": dict(
-        text=("Theorems (Coq): the resolution of a recorded type to a defined type sees through any stack of aliases around the single pointer strip (alias of T, pointer to alias, alias of "
+        text=("Theorems (Coq): type identity on the fragment = equality after removing every alias name at every depth; everything the checkers ask of a recorded type (ExtractTypeInfo, "
+              "ExtractTypeName, the direct-named test of CTOR03) is a function of that identity, hence rewriting the type recorded at EVERY node of EVERY file by ANY identity-preserving "
+              "function leaves the IMM / CTOR candidates and the TONL / PKGO diagnostics literally unchanged, for every program, facts set and suppression function "
+              "(C13_respelling_changes_nothing, by induction over the trees); the resolution of a recorded type to a defined type sees through any stack of aliases around the single pointer strip (alias of T, pointer to alias, alias of "
               "pointer, aliases of aliases), value or pointer alike; an alias type NAME is judged by @packageonly as its target. That renamed imports and parentheses leave TypeOf/ObjectOf "
-              "unchanged is an input fact exercised by the runs: the same IR with the types spelled 5 ways (direct, renamed import, alias in a third package, local alias - incl. aliases of "
-              "pointer types -, parenthesised) through the real binary, compared by site id / (package,type), each rendering also against the model."),
+              "unchanged is an input fact exercised by the runs: the same IR with the types spelled 6 ways (direct, renamed import, alias in a third package, local alias - incl. aliases of "
+              "pointer types -, parenthesised, dot import) through the real binary, compared by site id / (package,type), each rendering also against the model."),
         note="Pointers of depth >= 2 and generics are outside the fragment.",
-        technique="Coq proof (alias/pointer resolution lemmas) + metamorphic correspondence through the real binary"),
+        technique="Coq proof (invariance of the four checkers under every identity-preserving respelling of the recorded types, by tree induction) + metamorphic correspondence through the real binary"),
 }
 
 PENDING_REASON = "check under construction in this round (designed in DESIGN.md section 5); not yet claimed"
